@@ -648,6 +648,13 @@ def _footer(ctx) -> None:
     ctx.ob("c.footer", f, "sources", not problems, "footer reads len(pv), pv.shape, pv._dtype", f.node, message="_footer: " + "; ".join(problems))
     # elided dtype list
     ok = False
+    if tab is not None and len(f.params) < 4:
+        ctx.analysis_errors.append("footer: _footer no longer takes (object, dtype list, truncated, shown): the elision of the dtype list "
+                                   "cannot be located")
+        tab = None
+        elided_known = False
+    else:
+        elided_known = True
     if tab is not None:
         dl, shown, trunc = ("param", f.params[1]), ("param", f.params[3]), ("param", f.params[2])
         join = lambda x: ("call", ("attr", const(", "), "join"), (x,), ())
@@ -657,9 +664,10 @@ def _footer(ctx) -> None:
         tok = [p for p in tab[1] if p[0] == "fmt"][-1][1] if [p for p in tab[1] if p[0] == "fmt"] else None
         if tok is not None:
             ok = any(t == ("ifexp", trunc, want, join(dl)) for t in subterms(tok))
-    ctx.ob("c.footer", f, "elided-list", ok, "elided dtype list = first and last `shown` of the full list", f.node,
-           message="_footer no longer elides the FULL dtype list symmetrically (first `shown` + ', ..., ' + last `shown` when truncated, the "
-                   "whole list otherwise)")
+    if elided_known:
+      ctx.ob("c.footer", f, "elided-list", ok, "elided dtype list = first and last `shown` of the full list", f.node,
+             message="_footer no longer elides the FULL dtype list symmetrically (first `shown` + ', ..., ' + last `shown` when truncated, the "
+                     "whole list otherwise)")
     # ---- _repr_table: the footer is fed with the table and a dtype list over ALL columns
     g = prog.func("display._repr_table")
     gi = SInterp(prog, g)
@@ -875,7 +883,7 @@ def _headers(ctx) -> None:
     """Display names are the stored names and are printed verbatim (repr-quoted when needed) - on the symx event logs of
     _compute_headers and _header_rows (closures and helpers in line, comprehension or append loop alike)."""
     from ..sites2 import interp_of, strip_seq
-    from ..symx import beval, const, elements, reduce_ifexp, show, simplify
+    from ..symx import beval, const, elements, reduce_ifexp, show, show_conds, simplify
     prog = ctx.prog
     f = prog.func("display._compute_headers")
     it = interp_of(prog, f)
@@ -937,6 +945,30 @@ def _headers(ctx) -> None:
                     got.append(reduce_ifexp(simplify(v, atoms), atoms))
             if got != [want]:
                 problems.append(f"a display name that is {sit} is printed as {[show(x, gi)[:40] for x in got]}, expected `{show(want, gi)}`")
+    # the names row is shown whenever ANY displayed column has a name
+    from ..symx import flatten_conds, single_element
+    for obj, els in rows:
+        uses = [e for e in gi.events if e.kind == "call" and e.term[1][0] == "attr" and e.term[1][2] in ("append", "insert", "extend")
+                and obj in e.term[2]]
+        uses += [e for e in gi.events if e.kind == "elem" and e.value == obj]
+        if not uses:
+            continue                      # returned directly / always part of the result
+        for u in uses:
+            fc = flatten_conds(u.conds)
+            ok = False
+            if len(fc) == 1 and fc[0][1] and fc[0][0][0] == "call" and fc[0][0][1] == ("name", "any") and len(fc[0][0][2]) == 1:
+                G = fc[0][0][2][0]
+                se = single_element(gi, G) if G[0] == "obj" else None
+                if se is not None and len(se[0]) == 1 and gi.loops[se[0][0]].iter == DN:
+                    nm = ("elem", DN, se[0][0])
+                    filt = flatten_conds(se[1])
+                    if se[2] == nm and filt in ([], [(("cmp", "Eq", nm, const("...")), False)]):
+                        ok = True
+            if not fc:
+                ok = True
+            if not ok:
+                problems.append(f"the row of display names is shown only when `{show_conds(u.conds, gi)[:80]}`, expected: whenever any displayed "
+                                f"column has a name (a table with some unnamed columns would lose the names of the others)")
     ctx.ob("e.headers", g, "header-row", not problems, "names printed verbatim, quoted by repr when needed", g.node,
            message="_header_rows no longer prints the display names verbatim / repr-quoted: " + "; ".join(problems[:2]))
 
